@@ -109,7 +109,8 @@ def run(tier):
     json.dump(pairs, open(pf, "w"))
     out = os.path.join(wd, "race.json")
     env = dict(vlib.GOENV, GORACE="halt_on_error=0 exitcode=66")
-    p = subprocess.run([os.path.join(vlib.HBIN, "racedrv-race"), "-pairs", pf, "-out", out, "-seed", str(sd), "-storm", "700" if quick else "6000"],
+    p = subprocess.run([os.path.join(vlib.HBIN, "racedrv-race"), "-pairs", pf, "-out", out, "-seed", str(sd), "-storm", "700" if quick else "6000",
+                        "-pooled", "1" if quick else "3", "-shared", "2" if quick else "8", "-primes", os.path.join(vlib.VERIF, "fixtures", "safeprimes.json")],
                        env=env, capture_output=True, text=True, timeout=3000)
     if not os.path.exists(out):
         raise vlib.Inconclusive("racedrv failed: %s" % (p.stdout + p.stderr)[-2000:])
